@@ -113,10 +113,25 @@ def run(tier, seed=0, shard=(0, 1)):
                     if p.dom != dom or any(nm(p.cod.objects[perm[i]]) != nm(dom.objects[i]) for i in range(n)) \
                             or len(p.cod) != n:
                         rep.fail('C10:perm.cod', 'codomain %r is not the permuted domain' % (p.cod,), inp)
+                    # "the same holds in every diagram class that offers swaps": the permutation is a diagram of that class
+                    if not isinstance(p, cls):
+                        rep.fail('C10:perm.class', 'permutation in the %s class returns a %s.%s' % (
+                            cname, type(p).__module__, type(p).__name__), inp)
                     if n and cname in ('monoidal', 'rigid'):
                         q = cls.id(dom).permute(*perm)
                         if q != p:
                             rep.fail('C10:permute', 'permute differs from permutation', inp)
+                        # permute on a diagram whose codomain is not its domain: the OUTPUT wires are permuted
+                        if n >= 2:
+                            mk_box = monoidal.Box if cname == 'monoidal' else rigid.Box
+                            b = mk_box('f', dom[::-1] if dom[::-1] != dom else dom[:1], dom)
+                            try:
+                                r = b.permute(*perm)
+                                if r.dom != b.dom or r.cod != p.cod or r != (b >> p):
+                                    rep.fail('C10:permute.cod', 'box.permute(*perm) is not box >> permutation(perm, box.cod)', inp)
+                            except Exception as e:
+                                rep.fail('C10:permute.cod', 'box.permute(*perm) raised %s: %s on a box %r -> %r' % (
+                                    type(e).__name__, e, b.dom, b.cod), inp)
         # Tensor.swap itself (the array the tensor class interprets swaps by), blocks of unequal widths
         if cname == 'tensor' and shard[0] == 0:
             import numpy
